@@ -595,6 +595,16 @@ theorem entity_type_sound (rows : List Row) (fuel : Nat) (hf : fuelFor (make row
   exact h2 c (List.contains_iff_mem.1 this)
 
 open Hs.NsA in
+/-- ... and, when several reflected defs are entities, a candidate lies in no OTHER reflected entity def's
+inheritance: the entity type is a most specific one (`ahu` rather than `equip` for a record tagged with both) -/
+theorem entity_type_most_specific (rows : List Row) (fuel : Nat) (hf : fuelFor (make rows).defs ≤ fuel)
+    (reflected : List Name) :
+    ∃ cands tw, entityCandidates fuel (make rows) reflected = .ok cands ∧
+      (defined (make rows).defs nEntity = true → entityTypes fuel (make rows) (extendSet [] reflected) = .ok tw) ∧
+      (tw.length ≠ 1 → ∀ c, c ∈ cands → ∀ e inh, (e, inh) ∈ tw → e ≠ c → c ∉ inh) :=
+  entityCandidates_most_specific rows fuel hf reflected
+
+open Hs.NsA in
 /-- `has_relationship` always answers (no endless walk over the resolver's records, whatever cycles their refs
 form), answers false for a name that is no def -/
 theorem has_relationship_total (rows : List RowX) (fuel : Nat) (hf : fuelFor (makeX rows).ns.defs ≤ fuel)
